@@ -119,6 +119,15 @@ fn main() {
       }
     }
   }
+  if id == "LITERALS" {
+    let (i, f) = alpha::source_literals();
+    println!("{} integer literals, {} float literals", i.len(), f.len());
+    for d in [8u8, 17, 20, 29] {
+      println!("depth {}: {} literal coordinates", d, alpha::literal_coords(&i, d).len());
+    }
+    println!("floats: {:?}", &f[..f.len().min(400)]);
+    std::process::exit(0);
+  }
   let code = match id.as_str() {
     "C01" => c01::run(&ctx, false),
     "C02" => c01::run(&ctx, true),
